@@ -290,10 +290,420 @@ fn gen_case(out: &mut Out, rng: &mut Rng, base: &std::path::Path, n_blocks: usiz
     sim.finish();
 }
 
+
+// ------------------------------------------------------------------------------------ filter service
+
+/// Stream `nfilter`: the real `BlockFilter` service (block-filter/src/filter.rs) following a real
+/// node through forks.  After every delivered block the harness waits until the service has caught
+/// up with the tip (so the schedule is deterministic: one `build_filter_data` pass per tip change).
+///   blk <id> <parent>            -> ok
+///   sync <main ids>              -> built <ids of all blocks (any fork) that have a filter hash>
+///   filter <id> <tx> <tx> ..     -> n=<N> elems=<script ids> missing=<k>   (tx = c|n / in-cells / out-cells,
+///                                   cells are lock:type script ids, resolved by the harness)
+mod nfilter {
+    use super::*;
+    use ckb_block_filter::filter::BlockFilter;
+    use ckb_hash::blake2b_256;
+    use ckb_types::bytes::Bytes;
+    use ckb_types::core::{Capacity, TransactionBuilder, TransactionView};
+    use ckb_types::packed::{CellInput, CellOutput, OutPoint, Script};
+    use ckb_types::utilities::calc_filter_hash;
+    use std::collections::{BTreeMap, BTreeSet};
+
+    pub struct FNode {
+        node: Option<Node>,
+        builder: ChainBuilder,
+        blocks: HashMap<u64, BlockView>,
+        by_hash: HashMap<Byte32, u64>,
+        parent: HashMap<u64, u64>,
+        /// transactions proposed in a block (committed two blocks later on the same branch)
+        proposed: HashMap<u64, Vec<(usize, TransactionView)>>,
+        genesis: Vec<(OutPoint, u64)>,
+        genesis_lock: Script,
+        /// script hash -> protocol id
+        script_ids: HashMap<Vec<u8>, u64>,
+        scripts: BTreeMap<u64, Script>,
+        next_foreign: u64,
+        pub main: Vec<u64>,
+        pub reorgs: u64,
+        pub with_txs: u64,
+    }
+
+    fn lock_script(base: &Script, id: u64) -> Script {
+        base.clone().as_builder().args(Bytes::from(id.to_le_bytes().to_vec())).build()
+    }
+
+    impl FNode {
+        pub fn new(base: &std::path::Path, epoch_len: u64) -> FNode {
+            let _ = std::fs::remove_dir_all(base);
+            let cfg = NodeCfg { epoch_len, window: (2, 4), with_pool: false, genesis_cells: 64, ..Default::default() };
+            let consensus = make_consensus(&cfg);
+            let node = Node::start(&base.join("node"), consensus.clone(), &cfg);
+            BlockFilter::new(node.shared.clone()).start();
+            let builder = ChainBuilder::new(consensus.clone(), &base.join("builder"));
+            let g = builder.genesis();
+            let genesis = genesis_cells(&consensus);
+            let genesis_lock = g.transactions()[1].outputs().get(0).unwrap().lock();
+            let mut s = FNode {
+                node: Some(node), builder, blocks: HashMap::new(), by_hash: HashMap::new(), parent: HashMap::new(), proposed: HashMap::new(),
+                genesis, genesis_lock: genesis_lock.clone(), script_ids: HashMap::new(), scripts: BTreeMap::new(), next_foreign: 9000,
+                main: vec![], reorgs: 0, with_txs: 0,
+            };
+            s.register(0, genesis_lock.clone());
+            for id in 1..=6u64 {
+                let sc = lock_script(&genesis_lock, id);
+                s.register(id, sc);
+            }
+            s.by_hash.insert(g.hash(), 0);
+            s.blocks.insert(0, g);
+            s
+        }
+
+        fn register(&mut self, id: u64, sc: Script) {
+            self.script_ids.insert(sc.calc_script_hash().as_slice().to_vec(), id);
+            self.scripts.insert(id, sc);
+        }
+
+        fn script_id(&mut self, sc: &Script) -> u64 {
+            let k = sc.calc_script_hash().as_slice().to_vec();
+            if let Some(id) = self.script_ids.get(&k) {
+                return *id;
+            }
+            let id = self.next_foreign;
+            self.next_foreign += 1;
+            self.register(id, sc.clone());
+            id
+        }
+
+        fn node(&self) -> &Node {
+            self.node.as_ref().unwrap()
+        }
+
+        pub fn node_main(&self) -> Vec<u64> {
+            let snap = self.node().shared.snapshot();
+            let tip = snap.tip_header().number();
+            (1..=tip).map(|n| *self.by_hash.get(&snap.get_block_hash(n).expect("index")).expect("unknown main-chain block")).collect()
+        }
+
+        fn ancestors(&self, mut id: u64) -> Vec<u64> {
+            let mut v = vec![];
+            while id != 0 {
+                v.push(id);
+                id = self.parent[&id];
+            }
+            v
+        }
+
+        /// build a block on `parent`: commits what the grandparent proposed, proposes `n_new` fresh spends
+        fn build(&mut self, id: u64, parent: u64, n_new: usize, pick: &mut dyn FnMut(u64) -> u64) -> BlockView {
+            let anc = self.ancestors(parent);
+            let mut used: BTreeSet<usize> = BTreeSet::new();
+            for a in &anc {
+                for (c, _) in self.proposed.get(a).map(|v| v.as_slice()).unwrap_or(&[]) {
+                    used.insert(*c);
+                }
+            }
+            let commit: Vec<TransactionView> = if parent != 0 { self.proposed.get(&self.parent[&parent]).map(|v| v.iter().map(|(_, t)| t.clone()).collect()).unwrap_or_default() } else { vec![] };
+            let mut props = vec![];
+            for k in 0..n_new {
+                let Some(cell) = (0..self.genesis.len()).find(|c| !used.contains(c)) else { break };
+                used.insert(cell);
+                let (op, cap) = self.genesis[cell].clone();
+                let n_out = 1 + pick(2) as usize;
+                let mut b = TransactionBuilder::default().cell_dep(always_success_dep()).input(CellInput::new(op, 0));
+                let each = (cap - 10_000) / n_out as u64;
+                for o in 0..n_out {
+                    let lock = self.scripts[&(1 + pick(6))].clone();
+                    let ty = if pick(3) == 0 { Some(self.scripts[&(1 + pick(6))].clone()) } else { None };
+                    b = b
+                        .output(CellOutput::new_builder().capacity(Capacity::shannons(each)).lock(lock).type_(ty).build())
+                        .output_data(Bytes::from((id * 100 + k as u64 * 10 + o as u64).to_le_bytes().to_vec()));
+                }
+                props.push((cell, b.build()));
+            }
+            let spec = BlockSpec { salt: id, txs: commit, proposals: props.iter().map(|(_, t)| t.proposal_short_id()).collect(), ..Default::default() };
+            let ph = self.blocks[&parent].hash();
+            let blk = self.builder.build(&ph, &spec);
+            self.proposed.insert(id, props);
+            blk
+        }
+
+        /// the harness's own account of a block's transactions: (cellbase?, resolved input cells, outputs)
+        fn describe(&mut self, blk: &BlockView) -> Vec<(bool, Vec<Option<(u64, Option<u64>)>>, Vec<(u64, Option<u64>)>)> {
+            let genesis_pts: HashMap<Vec<u8>, ()> = self.genesis.iter().map(|(op, _)| (op.as_slice().to_vec(), ())).collect();
+            let mut v = vec![];
+            for tx in blk.transactions() {
+                let cb = tx.is_cellbase();
+                let mut ins = vec![];
+                if !cb {
+                    for pt in tx.input_pts_iter() {
+                        // every generated transaction spends genesis cells only
+                        ins.push(if genesis_pts.contains_key(pt.as_slice()) { Some((0u64, None)) } else { None });
+                    }
+                }
+                let mut outs = vec![];
+                for o in tx.outputs() {
+                    let l = self.script_id(&o.lock());
+                    let t = o.type_().to_opt().map(|t| self.script_id(&t));
+                    outs.push((l, t));
+                }
+                v.push((cb, ins, outs));
+            }
+            v
+        }
+
+        fn wait_built(&self, hash: &Byte32) -> bool {
+            for _ in 0..4000 {
+                if self.node().store().get_block_filter_hash(hash).is_some() {
+                    return true;
+                }
+                std::thread::sleep(std::time::Duration::from_millis(5));
+            }
+            false
+        }
+
+        pub fn exec(&mut self, out: &mut Out, line: &str, pick: &mut dyn FnMut(u64) -> u64) {
+            let t: Vec<&str> = line.split_whitespace().collect();
+            let ans = match t[0] {
+                "blk" => {
+                    let id: u64 = t[1].parse().unwrap();
+                    let parent: u64 = t[2].parse().unwrap();
+                    let n_new = pick(3) as usize;
+                    let blk = self.build(id, parent, n_new, pick);
+                    assert_eq!(blk.number(), id % 10000);
+                    if blk.transactions().len() > 1 {
+                        self.with_txs += 1;
+                    }
+                    out.count("blk");
+                    let r = self.node().process(&blk);
+                    self.by_hash.insert(blk.hash(), id);
+                    self.parent.insert(id, parent);
+                    self.blocks.insert(id, blk);
+                    match r {
+                        Ok(_) => "ok".to_string(),
+                        Err(e) => {
+                            out.oracle_fail("valid-block-rejected", &format!("{line}: {e}"));
+                            "rejected".into()
+                        }
+                    }
+                }
+                "sync" => {
+                    let ids = parse_list(t[1]);
+                    assert_eq!(ids, self.node_main(), "replayed main chain differs from the node's");
+                    let common = self.main.iter().zip(&ids).take_while(|(a, b)| a == b).count();
+                    if common < self.main.len() {
+                        self.reorgs += 1;
+                        out.count("reorg");
+                    }
+                    self.main = ids;
+                    out.count("sync");
+                    let tip_hash = self.node().tip_hash();
+                    if !self.wait_built(&tip_hash) {
+                        out.oracle_fail("filter-never-built", &format!("{line}: no filter for the tip after 20 s"));
+                    }
+                    // the property on the node's store: every main-chain block has a filter, hashes chain
+                    let store = self.node().store();
+                    let mut parent_hash = Byte32::zero();
+                    for id in std::iter::once(0u64).chain(self.main.iter().copied()) {
+                        let h = self.blocks[&id].hash();
+                        match (store.get_block_filter(&h), store.get_block_filter_hash(&h)) {
+                            (Some(data), Some(fh)) => {
+                                let mut buf = parent_hash.as_slice().to_vec();
+                                buf.extend_from_slice(&blake2b_256(data.raw_data()));
+                                if fh.as_slice() != blake2b_256(&buf) || fh.as_slice() != calc_filter_hash(&parent_hash, &data) {
+                                    out.oracle_fail("filter-hash-not-chained", &format!("{line}: block {id}"));
+                                }
+                                parent_hash = fh;
+                            }
+                            _ => {
+                                out.oracle_fail("main-chain-block-without-filter", &format!("{line}: block {id}"));
+                                break;
+                            }
+                        }
+                    }
+                    let mut built: Vec<u64> = self.blocks.iter().filter(|(_, b)| store.get_block_filter_hash(&b.hash()).is_some()).map(|(id, _)| *id).collect();
+                    built.sort();
+                    format!("built {}", join(&built, ","))
+                }
+                "filter" => {
+                    let id: u64 = t[1].parse().unwrap();
+                    out.count("filter");
+                    let blk = self.blocks[&id].clone();
+                    let desc = self.describe(&blk);
+                    let data = self.node().store().get_block_filter(&blk.hash()).expect("filter data").raw_data().to_vec();
+                    let n = u64::from_le_bytes(data[0..8].try_into().unwrap());
+                    let mut values: BTreeSet<u64> = BTreeSet::new();
+                    {
+                        let mut cur = std::io::Cursor::new(&data[8..]);
+                        let mut r = golomb_coded_set::BitStreamReader::new(&mut cur);
+                        let mut acc = 0u64;
+                        for _ in 0..n {
+                            let mut q = 0u64;
+                            while r.read(1).expect("gcs bits") == 1 {
+                                q += 1;
+                            }
+                            acc += (q << golomb_coded_set::P) + r.read(golomb_coded_set::P).expect("gcs bits");
+                            values.insert(acc);
+                        }
+                    }
+                    let nm = n.wrapping_mul(golomb_coded_set::M);
+                    let value_of = |sc: &Script| -> u64 {
+                        use std::hash::{BuildHasher, Hasher};
+                        let mut h = golomb_coded_set::SipHasher24Builder::new(0, 0).build_hasher();
+                        h.write(sc.calc_script_hash().as_slice());
+                        ((h.finish() as u128 * nm as u128) >> 64) as u64
+                    };
+                    let decoded: Vec<u64> = self.scripts.iter().filter(|(_, sc)| values.contains(&value_of(sc))).map(|(id, _)| *id).collect();
+                    let known: BTreeSet<u64> = decoded.iter().map(|i| value_of(&self.scripts[i])).collect();
+                    let unknown = values.iter().filter(|v| !known.contains(v)).count();
+                    // oracle: every script of the block's outputs and spent inputs matches through the real reader
+                    let reader = golomb_coded_set::GCSFilterReader::new(golomb_coded_set::SipHasher24Builder::new(0, 0), golomb_coded_set::M, golomb_coded_set::P);
+                    let mut expect: BTreeSet<u64> = BTreeSet::new();
+                    let mut missing = 0;
+                    for (_, ins, outs) in &desc {
+                        for i in ins {
+                            match i {
+                                Some((l, t)) => { expect.insert(*l); if let Some(t) = t { expect.insert(*t); } }
+                                None => missing += 1,
+                            }
+                        }
+                        for (l, t) in outs {
+                            expect.insert(*l);
+                            if let Some(t) = t { expect.insert(*t); }
+                        }
+                    }
+                    for sid in &expect {
+                        let h = self.scripts[sid].calc_script_hash();
+                        let mut q = vec![h.as_slice()].into_iter();
+                        if !reader.match_any(&mut std::io::Cursor::new(&data[..]), &mut q).unwrap_or(false) {
+                            out.oracle_fail("filter-misses-script", &format!("{line}: script {sid}"));
+                        }
+                    }
+                    if id != 0 && missing > 0 {
+                        out.oracle_fail("filter-input-cell-not-found", &format!("{line}: {missing} spent cells unknown to the harness"));
+                    }
+                    if expect.len() >= 3 {
+                        out.nontrivial(format!("{:?}", desc));
+                    }
+                    format!("n={} elems={} missing={}{}", n, join(&decoded, ","), missing, if unknown > 0 { format!(" unknown={unknown}") } else { String::new() })
+                }
+                _ => panic!("bad op {line}"),
+            };
+            out.op(line, &ans);
+        }
+
+        /// the `filter` op line for a block, written by the harness from its own account of the block
+        pub fn filter_line(&mut self, id: u64) -> String {
+            let blk = self.blocks[&id].clone();
+            let desc = self.describe(&blk);
+            let cell = |c: &(u64, Option<u64>)| format!("{}:{}", c.0, c.1.map(|t| t.to_string()).unwrap_or("-".into()));
+            let txs: Vec<String> = desc
+                .iter()
+                .map(|(cb, ins, outs)| {
+                    let i: Vec<String> = ins.iter().map(|c| c.as_ref().map(cell).unwrap_or("?".into())).collect();
+                    let o: Vec<String> = outs.iter().map(cell).collect();
+                    format!("{}/{}/{}", if *cb { "c" } else { "n" }, join(&i, ","), join(&o, ","))
+                })
+                .collect();
+            format!("filter {id} {}", txs.join(" "))
+        }
+
+        pub fn finish(mut self) {
+            if let Some(n) = self.node.take() {
+                n.stop();
+            }
+            self.builder.cleanup();
+        }
+    }
+
+    pub fn gen_case(out: &mut Out, rng: &mut Rng, base: &std::path::Path, n_blocks: usize) {
+        let epoch_len = *rng.pick(&[4u64, 7, 10]);
+        out.begin_case(&format!("nfilter epoch_len={epoch_len} seed={}", rng.0));
+        let mut content = Rng(rng.0);
+        // the filter service keeps a `Shared` clone alive until the process exits, so the RocksDB lock
+        // of a finished case is never released: every case gets its own directory
+        let mut sim = FNode::new(&base.join(format!("case{}", out.case)), epoch_len);
+        sim.exec(out, "sync -", &mut |n| content.below(n));
+        let mut uniq = 0u64;
+        let mut focus: u64 = 0;
+        for _ in 0..n_blocks {
+            if rng.chance(1, 6) {
+                let tipn = sim.main.len() as u64;
+                let at = match rng.below(4) {
+                    0 => tipn.saturating_sub(1),
+                    1 => tipn.saturating_sub(2),
+                    2 => tipn.saturating_sub(3),
+                    _ => rng.below(tipn + 1),
+                };
+                focus = if at == 0 { 0 } else { sim.main[at as usize - 1] };
+            }
+            uniq += 1;
+            let id = uniq * 10000 + focus % 10000 + 1;
+            sim.exec(out, &format!("blk {id} {focus}"), &mut |n| content.below(n));
+            focus = id;
+            let main = sim.node_main();
+            if main != sim.main {
+                sim.exec(out, &format!("sync {}", join(&main, ",")), &mut |n| content.below(n));
+                // the tip's filter, and a random earlier main-chain block's
+                let tip = *main.last().unwrap();
+                let l = sim.filter_line(tip);
+                sim.exec(out, &l, &mut |n| content.below(n));
+                if rng.chance(1, 3) {
+                    let other = main[rng.below(main.len() as u64) as usize];
+                    let l = sim.filter_line(other);
+                    sim.exec(out, &l, &mut |n| content.below(n));
+                }
+            }
+        }
+        if sim.reorgs > 0 && sim.with_txs > 0 {
+            out.nontrivial(format!("{epoch_len}:{:?}", sim.main));
+        }
+        sim.finish();
+    }
+}
+
 pub fn run(opts: &Opts) {
     let mut out = Out::new(&opts.out);
     let mut rng = Rng::new(opts.seed);
     let base = scratch_dir(&opts.out, "c19");
+    if opts.extra.first().map(|s| s == "nfilter").unwrap_or(false) {
+        if let Some(p) = &opts.replay {
+            let ops = read_replay_ops(p);
+            let mut sim: Option<nfilter::FNode> = None;
+            let mut content = Rng::new(0);
+            let mut skip = true;
+            for line in &ops {
+                let t: Vec<&str> = line.split_whitespace().collect();
+                if t[0] == "case" {
+                    if let Some(s) = sim.take() {
+                        s.finish();
+                    }
+                    let label = t[2..].join(" ");
+                    skip = !label.starts_with("nfilter");
+                    if skip {
+                        continue;
+                    }
+                    out.begin_case(&label);
+                    let get = |k: &str| label.split(k).nth(1).and_then(|s| s.split_whitespace().next()).and_then(|s| s.parse::<u64>().ok());
+                    content = Rng(get("seed=").unwrap_or(0));
+                    sim = Some(nfilter::FNode::new(&base.join(format!("case{}", out.case)), get("epoch_len=").unwrap_or(4)));
+                } else if !skip {
+                    sim.as_mut().expect("case line first").exec(&mut out, line, &mut |n| content.below(n));
+                }
+            }
+            if let Some(s) = sim.take() {
+                s.finish();
+            }
+        } else {
+            let (cases, blocks) = if opts.thorough() { (40 * opts.scale, 60) } else { (6 * opts.scale, 40) };
+            for _ in 0..cases {
+                nfilter::gen_case(&mut out, &mut rng, &base, blocks);
+            }
+        }
+        let _ = std::fs::remove_dir_all(&base);
+        out.finish("a real node with the real BlockFilter service attached, fed blocks with proposed-then-committed transactions (spending genesis cells into outputs with 6 distinct lock scripts and optional type scripts) on forks from tip-1..tip-3 and deeper; after every tip change the harness waits for the service, then checks on the node's store that every main-chain block has a filter, that filter hashes chain, and compares the set of built blocks (all forks) and decoded filter contents with the model; non-trivial iff the case has a reorg and at least one block with committed transactions");
+        return;
+    }
     if let Some(p) = &opts.replay {
         let ops = read_replay_ops(p);
         let mut sim: Option<NSim> = None;
